@@ -16,9 +16,9 @@ ASSUMPTIONS = ["masks are bool or 0/1 integer numpy arrays of length 4^k; thresh
                "the closure oracle is the mathematical definition in the statement (validated against brute force)"]
 
 
-def mask_array(bits, as_bool):
+def mask_array(bits, as_bool, dtype=None):
     import numpy
-    return gens.pooled(numpy.array(bits, dtype=bool if as_bool else int), "mask")
+    return gens.pooled(numpy.array(bits, dtype=dtype or (bool if as_bool else int)), "mask")
 
 
 def described_set(description, n):
@@ -37,7 +37,7 @@ def described_set(description, n):
     return set(values)
 
 
-def check_generation(k, bits, t, as_bool, with_latter_map=True, verbose=False):
+def check_generation(k, bits, t, as_bool, with_latter_map=True, verbose=False, dtype=None):
     """Returns (error detail or None, labels)."""
     dsw = import_dsw()
     n = 4 ** k
@@ -50,9 +50,11 @@ def check_generation(k, bits, t, as_bool, with_latter_map=True, verbose=False):
         labels.append("t1_reach_pruning")
     if not expected:
         labels.append("error_path")
-    mask = mask_array(bits, as_bool)
+    mask = mask_array(bits, as_bool, dtype)
     before = (mask.tobytes(), mask.dtype, mask.shape)
-    result = lib_call(dsw.connect_coding_graph, observed_length=k, vertices=mask, threshold=t, verbose=verbose)
+    import numpy
+    threshold = numpy.int64(t) if (dtype == "int32" or (k + t + len(bits)) % 5 == 0) else t  # e.g. from numpy.arange
+    result = lib_call(dsw.connect_coding_graph, observed_length=k, vertices=mask, threshold=threshold, verbose=verbose)
     if (mask.tobytes(), mask.dtype, mask.shape) != before:
         return "connect_coding_graph modified the caller's mask (k=%d t=%d)" % (k, t), labels
     if isinstance(result, Raised):
@@ -135,15 +137,21 @@ def drawn_cases(draw, tier):
     bits = draw(gens.masks(k))
     t = draw(st.integers(1, 4))
     drop = draw(st.lists(st.integers(0, 4 ** k - 1), min_size=1, max_size=6))
+    if draw(st.sampled_from([False] * 11 + [True])):
+        bits = [1] * len(bits)  # the complete mask
     return {"k": k, "bits": "".join(map(str, bits)), "t": t, "bool": draw(st.booleans()), "drop": drop,
-            "verbose": draw(st.integers(0, 4)) == 0}
+            "verbose": draw(st.integers(0, 4)) == 0,
+            "dtype": draw(st.sampled_from([None, None, None, "uint8", "int8", "int32"]))}
 
 
 def evaluate_drawn(case):
     dsw = import_dsw()
     k, t = case["k"], case["t"]
     bits = [int(c) for c in case["bits"]]
-    detail, labels = check_generation(k, bits, t, case["bool"], verbose=bool(case.get("verbose")))
+    detail, labels = check_generation(k, bits, t, case["bool"], verbose=bool(case.get("verbose")),
+                                      dtype=case.get("dtype"))
+    if case.get("dtype"):
+        labels.append("mask_dtype:" + case["dtype"])
     labels.append("k=%d" % k)
     if case.get("verbose"):
         labels.append("verbose")
